@@ -1,12 +1,14 @@
 //! Checks for topology, cluster node, RESP server and client.
 
 mod breaker;
+mod clusterchk;
+mod nodeh;
 mod parse;
 mod topo;
 
 use vlib::Check;
 
 fn main() {
-    let checks: Vec<&dyn Check> = vec![&topo::C24, &topo::C13, &topo::C14, &breaker::C26, &parse::C21];
+    let checks: Vec<&dyn Check> = vec![&topo::C24, &topo::C13, &topo::C14, &breaker::C26, &parse::C21, &clusterchk::C07, &clusterchk::C08];
     vlib::main_entry(&checks)
 }
